@@ -952,9 +952,13 @@ func selfTest(sessions []*c03lib.Session) {
 			return nil
 		}},
 	}
-	done := map[string]bool{}
+	// the corrupted sessions are prepared one after the other and validated side by side
 	res := map[string]string{}
-	for _, m := range muts {
+	var mu sync.Mutex
+	var wg sync.WaitGroup
+	sem := make(chan struct{}, 4)
+	for mi, m := range muts {
+		found := false
 		for _, s := range sessions {
 			if len(s.Panics) > 0 || len(s.Lines) < 20 || rejectedSessions[s] {
 				continue
@@ -976,18 +980,27 @@ func selfTest(sessions []*c03lib.Session) {
 				b, _ := json.Marshal(e)
 				cs.Lines = append(cs.Lines, b)
 			}
-			r := tlcTraces("selftest", "PipelineTrace.cfg", []*c03lib.Session{cs}, false)
-			if len(r) == 0 {
-				vlib.Infra("binding self-test: the corruption %q of a recorded session was ACCEPTED by the trace specification", m.name)
-			}
-			done[m.name] = true
-			res[m.name] = "rejected at line " + strconv.Itoa(r[0].lineNo)
+			found = true
+			wg.Add(1)
+			go func(mi int, name string) {
+				defer wg.Done()
+				sem <- struct{}{}
+				defer func() { <-sem }()
+				r := tlcTraces(fmt.Sprintf("selftest%d", mi), "PipelineTrace.cfg", []*c03lib.Session{cs}, false)
+				if len(r) == 0 {
+					vlib.Infra("binding self-test: the corruption %q of a recorded session was ACCEPTED by the trace specification", name)
+				}
+				mu.Lock()
+				res[name] = "rejected at line " + strconv.Itoa(r[0].lineNo)
+				mu.Unlock()
+			}(mi, m.name)
 			break
 		}
-		if !done[m.name] {
+		if !found {
 			deferredInfra = append(deferredInfra, fmt.Sprintf("binding self-test: no recorded session to apply corruption %q to", m.name))
 		}
 	}
+	wg.Wait()
 	c.Set("binding_self_test", res)
 	fmt.Fprintf(os.Stderr, "[selftest] %d corruptions of recorded sessions all rejected by the trace specification\n", len(res))
 }
